@@ -11,6 +11,7 @@ import (
 	"math"
 	"runtime"
 	"sync"
+	"sync/atomic"
 	"time"
 
 	"github.com/pinealctx/neptune/syncx/pipe"
@@ -97,11 +98,13 @@ type callee func(ctx context.Context, laneArg int) (int, error)
 type executor struct {
 	kind  string
 	slots int
-	// seq numbers the calls of a case (it is the argument of the reflective call and chooses the form on a mixed
-	// runner); reuse: the caller re-uses the CallCtx object of an earlier call whose caller has returned (line, mline)
-	call   func(ctx context.Context, hash int, fn callee, seq int, reuse bool) (interface{}, error)
+	// call issues one call (see callSpec) and returns what the caller was handed
+	call   func(ctx context.Context, s *callSpec) (interface{}, error)
 	stop   func()
 	laneOf func(hash int) int
+	// reflective: the call with this number goes through the reflective entry point (its result has the type the
+	// function declares)
+	reflective func(seq int) bool
 	// waitStopped blocks until the executor reports that its lane goroutines are gone (WaitGroup / WaitStop)
 	waitStopped func()
 	// run starts the lane goroutines (Run); started says whether that has happened
@@ -129,33 +132,43 @@ func isRefusal(kind string, err error) (closed, full bool) {
 	}
 }
 
-func newExecutor(kind string, slots, qsize int, lateRun bool) *executor {
-	e := &executor{kind: kind, slots: 1, laneOf: func(int) int { return 0 }}
-	wrap := func(fn callee) func(ctx context.Context) (interface{}, error) {
-		return func(ctx context.Context) (interface{}, error) {
-			v, err := fn(ctx, -1)
-			if err != nil {
-				return nil, err
-			}
-			return v, nil
-		}
-	}
+// exOpts: which of the optional constructor options are left out
+type exOpts struct {
+	NoWG   bool // runner queue, proc channel: built without WithWaitGroup
+	NoName bool // line, runner queue, proc channel: built without WithName
+}
+
+func newExecutor(kind string, slots, qsize int, lateRun bool, o exOpts) *executor {
+	e := &executor{kind: kind, slots: 1, laneOf: func(int) int { return 0 }, reflective: func(int) bool { return false }}
 	switch kind {
 	case KLine:
 		wg := &sync.WaitGroup{}
-		l := line.NewLine(wg, line.WithQSize(qsize), line.WithName("verif"))
+		lopts := []line.Option{line.WithQSize(qsize)}
+		if !o.NoName {
+			lopts = append(lopts, line.WithName("verif"))
+		}
+		l := line.NewLine(wg, lopts...)
 		e.run = l.Run
 		var sharedL *line.CallCtx
-		e.call = func(ctx context.Context, _ int, fn callee, _ int, reuse bool) (interface{}, error) {
+		e.call = func(ctx context.Context, s *callSpec) (interface{}, error) {
+			// every call carries a request of its own, which its callee checks
+			body, param := s.plain(-1), paramOf(s.seq)
 			cc := line.NewCallCtx(func(ctx context.Context, req interface{}) (interface{}, error) {
-				return wrap(fn)(ctx)
-			}, nil)
-			if reuse && sharedL != nil {
-				// the caller fills the object of its earlier call again (its fields are public) - what was accepted then
-				// must not change with it
+				if req != interface{}(param) {
+					if s.misroute != nil {
+						s.misroute(fmt.Sprintf("call %d was run with the request %v, its own is %d", s.seq, req, param))
+					}
+					_, err := body(ctx)
+					return -2000000 - s.seq, err
+				}
+				return body(ctx)
+			}, param)
+			if s.reuse && sharedL != nil {
+				// the caller fills the object of its earlier call again (its fields are public), with another function
+				// and another request - what was accepted then must not change with it
 				sharedL.Call, sharedL.Param = cc.Call, cc.Param
 				cc = sharedL
-			} else if reuse {
+			} else if s.reuse {
 				sharedL = cc
 			}
 			return l.AsyncCall(ctx, cc)
@@ -168,18 +181,23 @@ func newExecutor(kind string, slots, qsize int, lateRun bool) *executor {
 		e.slots = slots
 		e.laneOf = ml.IndexOf
 		var sharedM *mline.CallCtx
-		e.call = func(ctx context.Context, hash int, fn callee, _ int, reuse bool) (interface{}, error) {
-			cc := mline.NewCallCtx(hash, func(ctx context.Context, sIndex int, req interface{}) (interface{}, error) {
-				v, err := fn(ctx, sIndex)
-				if err != nil {
-					return nil, err
+		e.call = func(ctx context.Context, s *callSpec) (interface{}, error) {
+			param := paramOf(s.seq)
+			cc := mline.NewCallCtx(s.hash, func(ctx context.Context, sIndex int, req interface{}) (interface{}, error) {
+				body := s.plain(sIndex)
+				if req != interface{}(param) {
+					if s.misroute != nil {
+						s.misroute(fmt.Sprintf("call %d was run with the request %v, its own is %d", s.seq, req, param))
+					}
+					_, err := body(ctx)
+					return -2000000 - s.seq, err
 				}
-				return v, nil
-			}, nil)
-			if reuse && sharedM != nil {
+				return body(ctx)
+			}, param)
+			if s.reuse && sharedM != nil {
 				*sharedM = *cc
 				cc = sharedM
-			} else if reuse {
+			} else if s.reuse {
 				sharedM = cc
 			}
 			return ml.AsyncCall(ctx, cc)
@@ -188,38 +206,50 @@ func newExecutor(kind string, slots, qsize int, lateRun bool) *executor {
 		e.waitStopped = func() { _ = ml.WaitStop(context.Background()) }
 	case KRunCall, KRunDeleg, KRunProc, KRunMix:
 		rwg := &sync.WaitGroup{}
-		r := pasync.NewRunnerQ(pasync.WithQSize(qsize), pasync.WithName("verif"), pasync.WithWaitGroup(rwg))
+		ropts := []pasync.Option{pasync.WithQSize(qsize)}
+		if !o.NoName {
+			ropts = append(ropts, pasync.WithName("verif"))
+		}
+		if !o.NoWG {
+			ropts = append(ropts, pasync.WithWaitGroup(rwg))
+		}
+		r := pasync.NewRunnerQ(ropts...)
 		e.run = r.Run
 		e.waitStopped = func() { r.WaitStop(); rwg.Wait() }
-		e.call = func(ctx context.Context, _ int, fn callee, seq int, _ bool) (interface{}, error) {
-			form := map[string]int{KRunCall: 0, KRunDeleg: 1, KRunProc: 2}[kind]
+		formOf := func(seq int) int {
 			if kind == KRunMix {
-				form = seq % 3
+				return seq % 3
 			}
-			switch form {
+			return map[string]int{KRunCall: 0, KRunDeleg: 1, KRunProc: 2}[kind]
+		}
+		e.reflective = func(seq int) bool { return formOf(seq) == 0 }
+		e.call = func(ctx context.Context, s *callSpec) (interface{}, error) {
+			switch formOf(s.seq) {
 			case 0:
 				// the reflective call carries an argument: the callee must be handed exactly the one of its own call
-				want := 1000 + seq
-				return r.AsyncCall(func(ctx context.Context, arg int) (int, error) {
-					v, err := fn(ctx, -1)
-					if arg != want {
-						return -1000000 - arg, err
-					}
-					return v, err
-				}, ctx, want)
+				fn, arg := s.reflectCall()
+				v, err := r.AsyncCall(fn, ctx, arg)
+				return v, unwrapMyErr(err)
 			case 1:
-				return r.AsyncDelegate(ctx, wrap(fn))
+				return r.AsyncDelegate(ctx, s.plain(-1))
 			}
-			return r.AsyncProc(ctx, procFn(wrap(fn)))
+			return r.AsyncProc(ctx, procFn(s.plain(-1)))
 		}
 		e.stop = r.Stop
 	case KProcChan:
 		pwg := &sync.WaitGroup{}
-		p := pasync.NewProcChan(pasync.WithQSize(qsize), pasync.WithName("verif"), pasync.WithWaitGroup(pwg))
+		popts := []pasync.Option{pasync.WithQSize(qsize)}
+		if !o.NoName {
+			popts = append(popts, pasync.WithName("verif"))
+		}
+		if !o.NoWG {
+			popts = append(popts, pasync.WithWaitGroup(pwg))
+		}
+		p := pasync.NewProcChan(popts...)
 		e.run = p.Run
 		e.waitStopped = func() { p.WaitStop(); pwg.Wait() }
-		e.call = func(ctx context.Context, _ int, fn callee, _ int, _ bool) (interface{}, error) {
-			return p.AsyncProc(ctx, procFn(wrap(fn)))
+		e.call = func(ctx context.Context, s *callSpec) (interface{}, error) {
+			return p.AsyncProc(ctx, procFn(s.plain(-1)))
 		}
 		e.stop = p.Stop
 	default:
@@ -236,6 +266,8 @@ type event struct {
 	call  int
 	start bool
 	lane  int // lane argument handed to the callee (-1 where the API passes none)
+	// bad: the callee side was handed a request / argument that is not the one of its call (no start / end event)
+	bad string
 }
 
 type evlog struct {
@@ -263,26 +295,55 @@ func value(call int) int { return call*7 + 1 }
 type Step struct {
 	Op        string `json:"op"` // call | open | cancel | stop
 	Hash      int    `json:"hash,omitempty"`
-	Behave    string `json:"behave,omitempty"` // ok | err | gate | ctx
+	Behave    string `json:"behave,omitempty"` // ok | err | gate | ctx | dlerr | cerr | wcerr
 	PreCancel bool   `json:"pre_cancel,omitempty"`
 	// LateDone (with PreCancel): the context is over (Err() says so) but its Done() method only returns - a closed
 	// channel, as it must - once the harness has let the lane have its turn: the caller is held in front of its
 	// wait while the executor already deals with the call
 	LateDone bool `json:"late_done,omitempty"`
-	// Deadline (with PreCancel, not LateDone): the context is over because its deadline passed (Err() is DeadlineExceeded)
+	// Deadline (with PreCancel): the context is over because its deadline passed (Err() is DeadlineExceeded)
 	Deadline bool `json:"deadline,omitempty"`
 	Target   int  `json:"target,omitempty"` // open / cancel: index of the call (in issue order)
+	// Shape (call): what the call returns on success - its own number-derived value, a zero value, nil - and, for
+	// the reflective call, the function type (string / pointer / interface arguments and results, a concrete error
+	// type as second result, bool): see callSpec.wantResult
+	Shape int `json:"shape,omitempty"`
+	// Probe (stop): the goroutine that called Stop issues a call on the highest lane as soon as Stop has returned
+	Probe bool `json:"probe,omitempty"`
 }
 
-// lateDoneCtx is an ended context whose Done() takes its time.
+// lateDoneCtx is an ended context whose Done() takes its time: whoever asks for the channel is held - the lane (any
+// goroutine but the caller's) until releaseLane is closed, the caller until releaseCaller is closed. The harness lets
+// the lane go first and the caller only when the lane has come to rest, so the executor has dealt with the call
+// (skipped or run it) before its caller starts to wait.
 type lateDoneCtx struct {
 	context.Context
-	release chan struct{}
+	callerGID     *atomic.Int64
+	releaseLane   chan struct{}
+	releaseCaller chan struct{}
 }
 
 func (c lateDoneCtx) Done() <-chan struct{} {
-	<-c.release
+	if goid() == c.callerGID.Load() {
+		<-c.releaseCaller
+	} else {
+		<-c.releaseLane
+	}
 	return c.Context.Done()
+}
+
+// goid is the id of the calling goroutine.
+func goid() int64 {
+	var b [64]byte
+	n := runtime.Stack(b[:], false)
+	var id int64
+	for _, ch := range b[len("goroutine "):n] {
+		if ch < '0' || ch > '9' {
+			break
+		}
+		id = id*10 + int64(ch-'0')
+	}
+	return id
 }
 
 type CaseCtl struct {
@@ -296,6 +357,10 @@ type CaseCtl struct {
 	// ReuseCtx (line, mline): a caller whose earlier call has returned to it (e.g. through its context) fills the same
 	// CallCtx object again for its next call
 	ReuseCtx bool `json:"reuse_ctx,omitempty"`
+	// NoWG (runner queue, proc channel) / NoName (line, runner queue, proc channel): the executor is built without
+	// WithWaitGroup / WithName
+	NoWG   bool `json:"no_wg,omitempty"`
+	NoName bool `json:"no_name,omitempty"`
 }
 
 func GenCtl(t *rapid.T) CaseCtl {
@@ -306,6 +371,8 @@ func GenCtl(t *rapid.T) CaseCtl {
 	}
 	c.QSize = rapid.SampledFrom([]int{0, 0, 1, 2, 8}).Draw(t, "qsize")
 	c.ReuseCtx = (c.Kind == KLine || c.Kind == KMLine) && rapid.IntRange(0, 3).Draw(t, "reusectx") == 0
+	c.NoWG = rapid.IntRange(0, 2).Draw(t, "nowg") == 0
+	c.NoName = rapid.IntRange(0, 3).Draw(t, "noname") == 0
 	hashes := []int{0, 1, c.Slots, -1, -c.Slots, math.MinInt, math.MaxInt, 5, c.Slots - 1, 256, 299, -300}
 	ncalls := 0
 	var gates, live []int
@@ -332,14 +399,17 @@ func GenCtl(t *rapid.T) CaseCtl {
 				st.Hash = 0
 			}
 			// the first call is a gate more often than not: it occupies the lane so that later calls queue up
-			w := []string{"ok", "ok", "err", "gate", "ctx", "dlerr"}
+			w := []string{"ok", "ok", "ok", "err", "gate", "gate", "ctx", "ctx", "dlerr", "cerr", "wcerr"}
 			if ncalls == 0 {
 				w = []string{"gate", "gate", "gate", "ok", "ctx"}
 			}
 			st.Behave = rapid.SampledFrom(w).Draw(t, "behave")
 			st.PreCancel = rapid.IntRange(0, 9).Draw(t, "pre") == 0
 			st.LateDone = st.PreCancel && rapid.Bool().Draw(t, "latedone")
-			st.Deadline = st.PreCancel && !st.LateDone && rapid.Bool().Draw(t, "deadline")
+			st.Deadline = st.PreCancel && rapid.Bool().Draw(t, "deadline")
+			if rapid.Bool().Draw(t, "shaped") {
+				st.Shape = rapid.IntRange(0, plainShapes*reflectShapes-1).Draw(t, "shape")
+			}
 			if st.Behave == "gate" {
 				gates = append(gates, ncalls)
 			}
@@ -358,7 +428,7 @@ func GenCtl(t *rapid.T) CaseCtl {
 			live = append(live[:k:k], live[k+1:]...)
 		default:
 			stopped = true
-			c.Steps = append(c.Steps, Step{Op: "stop"})
+			c.Steps = append(c.Steps, Step{Op: "stop", Probe: rapid.Bool().Draw(t, "probe")})
 		}
 	}
 	if rapid.IntRange(0, 5).Draw(t, "laterun") == 0 {
@@ -385,6 +455,8 @@ type callRun struct {
 	gate                 chan struct{}
 	opened               bool
 	ownErr               error
+	calleeErr            error // the error its callee returns (nil: none)
+	spec                 *callSpec
 	op                   *vkit.Op
 	res                  interface{}
 	err                  error
@@ -406,6 +478,10 @@ func judge(res *vkit.Result, c CaseCtl, ex *executor, calls []*callRun, log *evl
 			return false
 		}
 		cl := calls[e.call]
+		if e.bad != "" {
+			res.Failf("request-routing", "%s: %s", what, e.bad)
+			return false
+		}
 		if e.start {
 			starts[e.call]++
 			if starts[e.call] > 1 {
@@ -524,11 +600,17 @@ func judge(res *vkit.Result, c CaseCtl, ex *executor, calls []*callRun, log *evl
 		if cl.err != nil {
 			closed, full = isRefusal(c.Kind, cl.err)
 		}
+		reflective := ex.reflective(i)
+		if cl.err != nil && cl.res != nil && cl.res != cl.spec.errResult(reflective) {
+			// next to an error a caller gets nil (or what its own callee returned with the error: the zero value of the
+			// declared result type of a reflective call) - never a value another call produced
+			res.Failf("result-routing", "%s: call %d (%s) returned (%v, %v): the value next to its error is not its own", what, i, cl.behave, cl.res, cl.err)
+			return false
+		}
 		switch {
 		case cl.err == nil:
-			v, ok := cl.res.(int)
-			if !ok || v != value(i) || cl.behave == "err" || cl.behave == "ctx" || cl.behave == "dlerr" {
-				res.Failf("result-routing", "%s: call %d (%s) returned (%v, nil), want its own result %d", what, i, cl.behave, cl.res, value(i))
+			if want := cl.spec.wantResult(reflective); cl.res != want || cl.calleeErr != nil || cl.behave == "ctx" {
+				res.Failf("result-routing", "%s: call %d (%s, shape %d) returned (%#v, nil), want its own result %#v", what, i, cl.behave, cl.spec.shape, cl.res, want)
 				return false
 			}
 			if !ended[i] {
@@ -545,23 +627,22 @@ func judge(res *vkit.Result, c CaseCtl, ex *executor, calls []*callRun, log *evl
 				res.Failf("spurious-full", "%s: call %d was refused as full on an unbounded queue", what, i)
 				return false
 			}
-		case cl.behave == "dlerr" && cl.err == context.DeadlineExceeded && ended[i]:
-			// the callee's own error (a context error of an inner operation), handed through
+		case cl.calleeErr != nil && cl.err == cl.calleeErr && ended[i]:
+			// the callee's own error handed through - also a context error of an inner operation (DeadlineExceeded,
+			// Canceled, a wrapped Canceled) while the caller's context may be alive
 		case errors.Is(cl.err, context.Canceled) || errors.Is(cl.err, context.DeadlineExceeded):
 			if !cl.cancelled {
-				res.Failf("result-routing", "%s: call %d returned a context error but its context was never cancelled", what, i)
+				res.Failf("result-routing", "%s: call %d (%s) returned the context error %v but its context was never cancelled", what, i, cl.behave, cl.err)
 				return false
 			}
 			// "its own context's error": exactly what its context reports
-			if own := cl.ctx.Err(); own != nil && cl.err != own && !(cl.behave == "ctx" || cl.behave == "dlerr") {
+			if own := cl.ctx.Err(); own != nil && cl.err != own {
 				res.Failf("result-routing", "%s: call %d returned the context error %v, its own context reports %v", what, i, cl.err, own)
 				return false
 			}
 		case cl.err == cl.ownErr:
-			if cl.behave != "err" || !ended[i] {
-				res.Failf("result-routing", "%s: call %d (%s) returned the error of an 'err' call", what, i, cl.behave)
-				return false
-			}
+			res.Failf("result-routing", "%s: call %d (%s) returned the error of an 'err' call", what, i, cl.behave)
+			return false
 		default:
 			res.Failf("result-routing", "%s: call %d returned a foreign error: %v", what, i, cl.err)
 			return false
@@ -591,13 +672,62 @@ func ExecCtl(c CaseCtl) *vkit.Result {
 	// the baseline is taken first, so the lane goroutines belong to the tracked set:
 	// a quiescent cut covers them too, and their termination shows in the final cut
 	sched := vkit.NewSched()
-	ex := newExecutor(c.Kind, c.Slots, c.QSize, c.LateRun)
+	ex := newExecutor(c.Kind, c.Slots, c.QSize, c.LateRun, exOpts{NoWG: c.NoWG, NoName: c.NoName})
 	if ex == nil {
 		res.Skip("malformed-config")
 		return res
 	}
+	if c.NoWG && c.Kind != KLine && c.Kind != KMLine {
+		res.Class("built-without-wait-group")
+	}
+	if c.Kind == KMLine && c.Slots > 64 {
+		res.Class("more-than-64-lanes")
+	}
 	log := &evlog{}
 	var calls []*callRun
+	// stopNow calls Stop on a goroutine of the schedule; with probe that goroutine issues a call on the highest lane
+	// as soon as Stop has returned: it must be refused as closed and never run
+	stopNow := func(what string, probe bool) bool {
+		var (
+			stopReturned, probeRan atomic.Bool
+			pRes                   interface{}
+			pErr                   error
+		)
+		op := sched.Go("stop", func() {
+			ex.stop()
+			stopReturned.Store(true)
+			if probe {
+				seq := 1000000 + len(calls)
+				spec := newSpec(seq, ex.slots-1, 0, false, func(context.Context, int) (int, error) {
+					probeRan.Store(true)
+					return value(seq), nil
+				}, nil)
+				pRes, pErr = ex.call(context.Background(), spec)
+			}
+		})
+		sched.MustQuiesce()
+		if !stopReturned.Load() {
+			res.Failf("stop-blocked", "%s: Stop itself is parked forever", what)
+			return false
+		}
+		if !probe {
+			return true
+		}
+		res.Class("call-right-after-stop-returned")
+		if probeRan.Load() {
+			res.Failf("accepted-after-stop", "%s: a call issued (on the highest lane) right after Stop had returned was executed", what)
+			return false
+		}
+		if !op.Done() {
+			res.Failf("accepted-after-stop", "%s: a call issued (on the highest lane) right after Stop had returned was not refused: its caller waits forever", what)
+			return false
+		}
+		if closed, _ := isRefusal(c.Kind, pErr); !closed {
+			res.Failf("accepted-after-stop", "%s: a call issued (on the highest lane) right after Stop had returned was not refused as closed (got %v, %v)", what, pRes, pErr)
+			return false
+		}
+		return true
+	}
 	var lastUser *callRun // ReuseCtx: the call that used the shared CallCtx object last
 	stopped := false
 	queuedBehindGate := 0
@@ -626,19 +756,24 @@ func ExecCtl(c CaseCtl) *vkit.Result {
 				return res.Failf("index-range", "%s: IndexOf(%d) = %d, outside [0,%d)", what, hash, cl.lane, ex.slots)
 			}
 			cl.ctx, cl.cancel = context.WithCancel(context.Background())
-			var lateRelease chan struct{}
-			if st.PreCancel && st.Deadline && !st.LateDone {
-				cl.ctx, cl.cancel = context.WithDeadline(context.Background(), time.Unix(1, 0)) // long past: no timer
+			var late *lateDoneCtx
+			if st.PreCancel {
+				if st.Deadline {
+					cl.cancel()
+					cl.ctx, cl.cancel = context.WithDeadline(context.Background(), time.Unix(1, 0)) // long past: no timer
+					res.Class("expired-deadline-before-enqueue")
+				} else {
+					cl.cancel()
+					res.Class("cancelled-before-enqueue")
+				}
 				cl.cancelled, cl.cancelledBeforeIssue = true, true
-				res.Class("expired-deadline-before-enqueue")
-			} else if st.PreCancel {
-				cl.cancel()
-				cl.cancelled, cl.cancelledBeforeIssue = true, true
-				res.Class("cancelled-before-enqueue")
 				if st.LateDone {
-					lateRelease = make(chan struct{})
-					cl.ctx = lateDoneCtx{cl.ctx, lateRelease}
+					late = &lateDoneCtx{cl.ctx, &atomic.Int64{}, make(chan struct{}), make(chan struct{})}
+					cl.ctx = *late
 					res.Class("cancelled-before-enqueue-done-fires-late")
+					if st.Deadline {
+						res.Class("expired-deadline-done-fires-late")
+					}
 				}
 			}
 			// classes (on what the controller knows)
@@ -666,12 +801,24 @@ func ExecCtl(c CaseCtl) *vkit.Result {
 				case "ctx":
 					<-ctx.Done()
 					return 0, ctx.Err()
-				case "dlerr":
-					// the callee fails with a context error of its own (an inner operation timed out) while the
-					// caller's context may be alive: the caller must get exactly this error
-					return 0, context.DeadlineExceeded
+				case "dlerr", "cerr", "wcerr":
+					// the callee fails with a context error of its own (an inner operation timed out or was cancelled)
+					// while the caller's context may be alive: the caller must get exactly this error
+					return 0, cl.calleeErr
 				}
 				return value(i), nil
+			}
+			switch cl.behave {
+			case "err":
+				cl.calleeErr = cl.ownErr
+			case "dlerr":
+				cl.calleeErr = context.DeadlineExceeded
+			case "cerr":
+				cl.calleeErr = context.Canceled
+				res.Class("callee-fails-with-context-canceled")
+			case "wcerr":
+				cl.calleeErr = fmt.Errorf("inner operation of call %d: %w", i, context.Canceled)
+				res.Class("callee-fails-with-wrapped-canceled")
 			}
 			reuse := false
 			if c.ReuseCtx {
@@ -684,11 +831,33 @@ func ExecCtl(c CaseCtl) *vkit.Result {
 					lastUser = cl
 				}
 			}
-			cl.op = sched.Go(fmt.Sprintf("caller-%d", i), func() { cl.res, cl.err = ex.call(cl.ctx, hash, fn, i, reuse) })
-			if lateRelease != nil {
-				// whoever asks this context for its Done channel is held until the executor has had its turn
+			cl.spec = newSpec(i, hash, st.Shape, reuse, fn, func(msg string) { log.add(event{call: i, bad: msg}) })
+			if cl.behave != "ctx" && cl.calleeErr == nil {
+				switch w := cl.spec.wantResult(ex.reflective(i)); {
+				case w == nil:
+					res.Class("own-result-is-nil")
+				case w == interface{}(0) || w == interface{}("") || w == interface{}(false) || w == interface{}((*respT)(nil)):
+					res.Class("own-result-is-a-zero-value")
+				case w != interface{}(value(i)):
+					res.Class("own-result-is-a-string-or-pointer")
+				}
+				if ex.reflective(i) && st.Shape%reflectShapes == 8 {
+					res.Class("reflective-function-with-concrete-error-type")
+				}
+			}
+			cl.op = sched.Go(fmt.Sprintf("caller-%d", i), func() {
+				if late != nil {
+					late.callerGID.Store(goid())
+				}
+				cl.res, cl.err = ex.call(cl.ctx, cl.spec)
+			})
+			if late != nil {
+				// the caller is held in front of its wait; the lane has its turn first (if the call is queued behind
+				// another one it comes to it later and is not held then)
 				sched.MustQuiesce()
-				close(lateRelease)
+				close(late.releaseLane)
+				sched.MustQuiesce()
+				close(late.releaseCaller)
 			}
 		case "run":
 			if ex.started {
@@ -738,10 +907,8 @@ func ExecCtl(c CaseCtl) *vkit.Result {
 				res.Class("stop-with-calls-pending")
 				res.NonTrivial = true
 			}
-			op := sched.Go("stop", ex.stop)
-			sched.MustQuiesce()
-			if !op.Done() {
-				return res.Failf("stop-blocked", "%s: Stop itself is parked forever", what)
+			if !stopNow(what, st.Probe) {
+				return res
 			}
 			stopped = true
 		default:
@@ -777,10 +944,8 @@ func ExecCtl(c CaseCtl) *vkit.Result {
 		return res
 	}
 	if !stopped {
-		op := sched.Go("stop", ex.stop)
-		sched.MustQuiesce()
-		if !op.Done() {
-			return res.Failf("stop-blocked", "epilogue: Stop itself is parked forever")
+		if !stopNow("epilogue: Stop", true) {
+			return res
 		}
 		stopped = true
 		if !judge(res, c, ex, calls, log, stopped, false, "epilogue: after Stop") {
@@ -891,6 +1056,10 @@ type StressCall struct {
 	Err    bool `json:"err,omitempty"`
 	Spin   int  `json:"spin"`
 	Cancel bool `json:"cancel,omitempty"` // on a context the canceller cancels concurrently
+	// CErr (with Err): 1 the callee fails with context.Canceled itself, 2 with a wrapped context.Canceled (0: an error of its own)
+	CErr int `json:"cerr,omitempty"`
+	// Shape: see Step.Shape
+	Shape int `json:"shape,omitempty"`
 }
 
 type CaseStress struct {
@@ -903,6 +1072,9 @@ type CaseStress struct {
 	// Twin: two executors of the kind work at the same time, the callers alternate between them (state that a package
 	// shares between its executors is then contended)
 	Twin bool `json:"twin,omitempty"`
+	// see CaseCtl
+	NoWG   bool `json:"no_wg,omitempty"`
+	NoName bool `json:"no_name,omitempty"`
 }
 
 func GenStress(t *rapid.T) CaseStress {
@@ -911,6 +1083,13 @@ func GenStress(t *rapid.T) CaseStress {
 	c.QSize = rapid.SampledFrom([]int{0, 1, 2, 8}).Draw(t, "qsize")
 	c.Procs = rapid.SampledFrom([]int{1, 2, 4, 8}).Draw(t, "procs")
 	hashes := []int{0, 1, c.Slots, -1, -c.Slots, math.MinInt, math.MaxInt, 5}
+	if c.Kind == KMLine && rapid.IntRange(0, 5).Draw(t, "manylanes") == 0 {
+		// many lanes (509 is the default), calls mostly on the high ones
+		c.Slots = rapid.SampledFrom([]int{65, 100, 257, 300, 509}).Draw(t, "slotsmany")
+		hashes = []int{c.Slots - 1, 1 - c.Slots, c.Slots - 2, 64, 65, -64, c.Slots / 2, 2*c.Slots - 1, 0, math.MinInt, math.MaxInt}
+	}
+	c.NoWG = rapid.IntRange(0, 2).Draw(t, "nowg") == 0
+	c.NoName = rapid.IntRange(0, 3).Draw(t, "noname") == 0
 	total := 0
 	for g, ng := 0, rapid.IntRange(2, 8).Draw(t, "callers"); g < ng; g++ {
 		var prog []StressCall
@@ -919,6 +1098,12 @@ func GenStress(t *rapid.T) CaseStress {
 				Spin: rapid.IntRange(0, 3).Draw(t, "spin"), Cancel: rapid.IntRange(0, 5).Draw(t, "cancel") == 0}
 			if c.Kind != KMLine {
 				sc.Hash = 0
+			}
+			if sc.Err && rapid.IntRange(0, 2).Draw(t, "cerrs") == 0 {
+				sc.CErr = rapid.IntRange(1, 2).Draw(t, "cerr")
+			}
+			if rapid.Bool().Draw(t, "shaped") {
+				sc.Shape = rapid.IntRange(0, plainShapes*reflectShapes-1).Draw(t, "shape")
 			}
 			prog = append(prog, sc)
 			total++
@@ -932,7 +1117,7 @@ func GenStress(t *rapid.T) CaseStress {
 
 func ExecStress(c CaseStress) *vkit.Result {
 	res := &vkit.Result{}
-	if c.Slots < 1 || c.Slots > 64 || c.QSize < 0 || c.QSize > 1024 || len(c.Callers) == 0 || len(c.Callers) > 32 {
+	if c.Slots < 1 || c.Slots > 1024 || c.QSize < 0 || c.QSize > 1024 || len(c.Callers) == 0 || len(c.Callers) > 32 {
 		res.Skip("malformed-config")
 		return res
 	}
@@ -940,7 +1125,8 @@ func ExecStress(c CaseStress) *vkit.Result {
 		defer runtime.GOMAXPROCS(runtime.GOMAXPROCS(c.Procs))
 	}
 	sched := vkit.NewSched()
-	ex := newExecutor(c.Kind, c.Slots, c.QSize, false)
+	xo := exOpts{NoWG: c.NoWG, NoName: c.NoName}
+	ex := newExecutor(c.Kind, c.Slots, c.QSize, false, xo)
 	if ex == nil {
 		res.Skip("malformed-config")
 		return res
@@ -948,7 +1134,7 @@ func ExecStress(c CaseStress) *vkit.Result {
 	defer ex.stop()
 	exs := []*executor{ex}
 	if c.Twin {
-		ex2 := newExecutor(c.Kind, c.Slots, c.QSize, false)
+		ex2 := newExecutor(c.Kind, c.Slots, c.QSize, false, xo)
 		defer ex2.stop()
 		exs = append(exs, ex2)
 		res.Class("two-executors-at-once")
@@ -958,6 +1144,9 @@ func ExecStress(c CaseStress) *vkit.Result {
 		problem string
 		issued  int
 		inLane  = make([]int, len(exs)*ex.slots)
+		// lastOf[lane slot][caller]: the number of that caller's call that started last on the lane. A caller issues its
+		// calls one after the other, so on one lane they were accepted - and must start - in that order
+		lastOf  = map[[2]int]int{}
 		execs   = map[int]int{}
 		okCalls int
 	)
@@ -970,13 +1159,31 @@ func ExecStress(c CaseStress) *vkit.Result {
 	}
 	stopCh := make(chan struct{})
 	var stopOnce sync.Once
+	// doStop stops the executors once; whoever did it issues, as soon as Stop has returned, one call on the highest
+	// lane of each executor: it must be refused as closed and never run
 	doStop := func() {
+		did := false
 		stopOnce.Do(func() {
 			for _, e := range exs {
 				e.stop()
 			}
 			close(stopCh)
+			did = true
 		})
+		if !did {
+			return
+		}
+		for k, e := range exs {
+			pid := 90000000 + k
+			spec := newSpec(pid, e.slots-1, 0, false, func(context.Context, int) (int, error) {
+				note("a call issued on the highest lane right after Stop had returned was executed")
+				return value(pid), nil
+			}, nil)
+			v, err := e.call(context.Background(), spec)
+			if closed, _ := isRefusal(c.Kind, err); !closed {
+				note("a call issued on the highest lane right after Stop had returned was not refused as closed (got %v, %v)", v, err)
+			}
+		}
 	}
 	start := make(chan struct{})
 	for g, prog := range c.Callers {
@@ -984,7 +1191,7 @@ func ExecStress(c CaseStress) *vkit.Result {
 		sched.Go(fmt.Sprintf("caller-%d", g), func() {
 			<-start
 			for i, sc := range prog {
-				id := g*1000 + i
+				id := g*100000 + i
 				hash := sc.Hash
 				if c.Kind != KMLine {
 					hash = 0
@@ -999,6 +1206,12 @@ func ExecStress(c CaseStress) *vkit.Result {
 				lane += (g % len(exs)) * ex.slots // bookkeeping slot of this executor's lane
 				ctx, cancel := context.WithCancel(context.Background())
 				ownErr := fmt.Errorf("own error %d", id)
+				switch {
+				case sc.Err && sc.CErr == 1:
+					ownErr = context.Canceled
+				case sc.Err && sc.CErr == 2:
+					ownErr = fmt.Errorf("inner operation of call %d: %w", id, context.Canceled)
+				}
 				mu.Lock()
 				issued++
 				now := issued
@@ -1015,12 +1228,18 @@ func ExecStress(c CaseStress) *vkit.Result {
 				if sc.Cancel {
 					go func() { runtime.Gosched(); cancel() }()
 				}
-				v, err := ex.call(ctx, hash, func(cctx context.Context, laneArg int) (int, error) {
+				spec := newSpec(id, hash, sc.Shape, false, nil, func(msg string) { note("%s", msg) })
+				spec.fn = func(cctx context.Context, laneArg int) (int, error) {
 					mu.Lock()
 					execs[id]++
 					inLane[lane]++
 					bad := inLane[lane] != 1
+					last, seen := lastOf[[2]int{lane, g}]
+					lastOf[[2]int{lane, g}] = i
 					mu.Unlock()
+					if seen && last > i {
+						note("call %d started on lane %d after call %d of the same caller, which was accepted later", id, lane, g*100000+last)
+					}
 					if bad {
 						note("call %d entered lane %d while another call was running there", id, lane)
 					}
@@ -1037,16 +1256,21 @@ func ExecStress(c CaseStress) *vkit.Result {
 						return 0, ownErr
 					}
 					return value(id), nil
-				}, id, false)
+				}
+				v, err := ex.call(ctx, spec)
 				cancel()
+				reflective := ex.reflective(id)
+				if err != nil && v != nil && v != spec.errResult(reflective) {
+					note("call %d returned (%v, %v): the value next to its error is not its own", id, v, err)
+				}
 				closed, full := false, false
 				if err != nil {
 					closed, full = isRefusal(c.Kind, err)
 				}
 				switch {
 				case err == nil:
-					if iv, ok := v.(int); !ok || iv != value(id) || sc.Err {
-						note("call %d returned (%v, nil), want its own result %d", id, v, value(id))
+					if want := spec.wantResult(reflective); v != want || sc.Err {
+						note("call %d (shape %d) returned (%#v, nil), want its own result %#v", id, sc.Shape, v, want)
 					}
 					mu.Lock()
 					okCalls++
@@ -1055,13 +1279,15 @@ func ExecStress(c CaseStress) *vkit.Result {
 						note("call %d was issued after Stop had returned and was executed", id)
 					}
 				case closed || full:
-				case errors.Is(err, context.Canceled):
-					if !sc.Cancel {
-						note("call %d returned a context error but its context was never cancelled", id)
-					}
 				case err == ownErr:
 					if !sc.Err {
 						note("call %d returned an error it does not own", id)
+					}
+				case errors.Is(err, context.Canceled):
+					if !sc.Cancel {
+						note("call %d returned a context error but its context was never cancelled", id)
+					} else if err != context.Canceled {
+						note("call %d returned the context error %v, its own context reports %v", id, err, context.Canceled)
 					}
 				default:
 					note("call %d returned a foreign error: %v", id, err)
@@ -1071,7 +1297,7 @@ func ExecStress(c CaseStress) *vkit.Result {
 	}
 	close(start)
 	sched.MustQuiesce()
-	doStop()
+	sched.Go("final-stop", doStop)
 	parked := sched.MustQuiesce()
 	if ops := sched.ParkedOps(); len(ops) > 0 {
 		var names []string
@@ -1117,6 +1343,9 @@ func ExecStress(c CaseStress) *vkit.Result {
 	if c.Procs > 1 {
 		res.Class("parallel")
 	}
+	if c.Kind == KMLine && c.Slots > 64 {
+		res.Class("more-than-64-lanes")
+	}
 	if c.StopAt >= 0 {
 		res.Class("stop-in-the-middle")
 	}
@@ -1134,12 +1363,12 @@ var PartIndex = &vkit.Part[CaseIndex]{
 
 var PartCtl = &vkit.Part[CaseCtl]{
 	Property: Property, Name: "controlled",
-	Rule:  "rapid: {line | mline (1/2/3/7 lanes) | runner queue (reflective call, delegate, proc) | proc channel} x queue size 0(unbounded)/1/2/8 x 3-16 steps (call with hash incl. negatives, MinInt, MaxInt, and callee behaviour ok / own error / blocks on a harness gate / waits for its context; pre-cancelled contexts; open a gate; cancel a pending or finished call; Stop). Callers are started one at a time and confirmed parked in the result wait (or returned) at quiescence, so the acceptance order is owned. Oracles from the callee-side event log and the callers' results: executed at most once, no overlap per lane, start order = acceptance order, lane index = IndexOf(hash) in range, own result / own error / own context error only, idle lane has executed every accepted call (runner may skip cancelled calls, proc channel drops its backlog at Stop), nothing accepted after Stop, everything terminates (no goroutine of the case and no lane goroutine left). Non-trivial: >= 2 calls queued behind a gate, or a cancel / Stop while calls are pending; distinct = distinct case JSON",
+	Rule:  "rapid: {line | mline (1/2/3/7 lanes) | runner queue (reflective call, delegate, proc) | proc channel} x queue size 0(unbounded)/1/2/8 x 3-16 steps (call with hash incl. negatives, MinInt, MaxInt, and callee behaviour ok / own error / blocks on a harness gate / waits for its context; callee fails with DeadlineExceeded / Canceled / a wrapped Canceled of its own; results of every shape: int, 0, nil, and for the reflective call string, pointer, interface, bool, concrete error type; pre-cancelled contexts and expired deadlines, also with a Done() that fires only after the lane had its turn; open a gate; cancel a pending or finished call; Stop, with a call on the highest lane by the stopping goroutine right after Stop returned); executors built with / without wait group and name; every call carries its own request / argument, checked by the callee. Callers are started one at a time and confirmed parked in the result wait (or returned) at quiescence, so the acceptance order is owned. Oracles from the callee-side event log and the callers' results: executed at most once, no overlap per lane, start order = acceptance order, lane index = IndexOf(hash) in range, own request, own result / own error / own context error only (next to an error nil or the callee's own zero value), idle lane has executed every accepted call (runner may skip cancelled calls, proc channel drops its backlog at Stop), nothing accepted after Stop, everything terminates (no goroutine of the case and no lane goroutine left). Non-trivial: >= 2 calls queued behind a gate, or a cancel / Stop while calls are pending; distinct = distinct case JSON",
 	Quick: 2000, Thorough: 12000,
 	Gen: GenCtl, Exec: ExecCtl,
 }
 
-var stressRule = "rapid: same executors; 2-8 free-running callers issue 1-10 calls each (hash, own error or value, spinning callee, contexts cancelled concurrently), Stop after a drawn number of issued calls; GOMAXPROCS 1/2/4/8. Oracle: in-lane occupancy counter (no overlap), executed at most once, own results only, nobody parked and no lane goroutine alive after Stop. Non-trivial: >= 2 callers and >= 2 successful calls; distinct = distinct case JSON"
+var stressRule = "rapid: same executors (multi-line also with 65-509 lanes and hashes on the high lanes); 2-8 free-running callers issue 1-10 calls each (hash, own error / Canceled / wrapped Canceled or a value of any shape, spinning callee, contexts cancelled concurrently), Stop after a drawn number of issued calls, followed at once by a call on the highest lane; GOMAXPROCS 1/2/4/8. Oracle: in-lane occupancy counter (no overlap), executed at most once, one caller's calls start in issue order per lane, own requests and results only, nothing accepted once Stop has returned, nobody parked and no lane goroutine alive after Stop. Non-trivial: >= 2 callers and >= 2 successful calls; distinct = distinct case JSON"
 
 var PartStress = &vkit.Part[CaseStress]{
 	Property: Property, Name: "stress",
